@@ -35,6 +35,48 @@ class Emit:
     or_empty: bool = False
 
 
+def _alternatives(pattern: str) -> List[Tuple[str, str]]:
+    """The ordered (group name, sub-pattern) table of a master pattern `(?P<A>...)|(?P<B>...)|...`.
+
+    Read off the folded pattern itself, so the way the source builds it does not matter.
+    """
+    out: List[Tuple[str, str]] = []
+    depth = 0
+    start = 0
+    i = 0
+    in_class = False
+    pieces: List[str] = []
+    while i < len(pattern):
+        c = pattern[i]
+        if c == "\\":
+            i += 2
+            continue
+        if in_class:
+            if c == "]":
+                in_class = False
+        elif c == "[":
+            in_class = True
+            if pattern[i + 1:i + 2] == "^":
+                i += 1
+            if pattern[i + 1:i + 2] == "]":
+                i += 1
+        elif c == "(":
+            depth += 1
+        elif c == ")":
+            depth -= 1
+        elif c == "|" and depth == 0:
+            pieces.append(pattern[start:i])
+            start = i + 1
+        i += 1
+    pieces.append(pattern[start:])
+    for piece in pieces:
+        m = re.match(r"\(\?P<([A-Za-z_][A-Za-z0-9_]*)>(.*)\)\Z", piece, re.DOTALL)
+        if m is None:
+            raise AnalysisError(f"Lexer master pattern: alternative `{piece[:40]}` is not one named group")
+        out.append((m.group(1), m.group(2)))
+    return out
+
+
 class LexerModel:
     def __init__(self, repo: Repo, folder: Folder, env_overrides: Optional[Dict[str, str]] = None) -> None:
         self.repo = repo
@@ -49,32 +91,16 @@ class LexerModel:
         self.compile_fn = fn
         try:
             master = folder.eval_function_return(fn, {"self": inst})
-            # also fold the local `rules` list for the ordered table
-            scope_locals = self._fold_locals(fn, inst)
         except NotConst as err:
             raise AnalysisError(f"Lexer.compile_rules cannot be folded: {err}") from err
         if not isinstance(master, RegexConst):
             raise AnalysisError("Lexer.compile_rules does not return a compiled pattern")
         self.master = master
-        rules = scope_locals.get("rules")
-        if not isinstance(rules, list) or not all(
-            isinstance(r, tuple) and len(r) == 2 and all(isinstance(x, str) for x in r)
-            for r in rules
-        ):
-            raise AnalysisError("Lexer.compile_rules: local `rules` is not a list of (token, pattern)")
-        self.rules: List[Tuple[str, str]] = rules
-        self.env_tokens = scope_locals.get("env_tokens")
+        self.rules: List[Tuple[str, str]] = _alternatives(master.pattern)
         self.emits: List[Emit] = []
         self.skipped: Set[str] = set()
         self.illegal: Set[str] = set()
         self._parse_tokenize()
-
-    def _fold_locals(self, fn, inst):  # type: ignore[no-untyped-def]
-        scope = Scope(self.folder, fn.module, fn.cls, {"self": inst})
-        for stmt in fn.node.body:
-            if isinstance(stmt, ast.Assign) and len(stmt.targets) == 1 and isinstance(stmt.targets[0], ast.Name):
-                scope.locals[stmt.targets[0].id] = self.folder.eval(stmt.value, scope)
-        return scope.locals
 
     # ------------------------------------------------------------ tokenize
     def _const(self, fn, e: ast.expr) -> Optional[str]:  # type: ignore[no-untyped-def]
@@ -84,93 +110,133 @@ class LexerModel:
             return None
         return v if isinstance(v, str) else None
 
-    def _cond_rules(self, fn, test: ast.expr) -> Optional[List[str]]:  # type: ignore[no-untyped-def]
-        if isinstance(test, ast.Compare) and len(test.ops) == 1 and isinstance(test.left, ast.Name) and test.left.id == "kind":
+    def _is_kind(self, e: ast.expr) -> bool:
+        """`match.lastgroup`, or a local bound to it."""
+        if isinstance(e, ast.Attribute) and e.attr == "lastgroup":
+            return True
+        return isinstance(e, ast.Name) and e.id in self._kind_names
+
+    def _test(self, fn, test: ast.expr, rule: str) -> Optional[bool]:  # type: ignore[no-untyped-def]
+        """Truth of a dispatch test when the matched rule is `rule`; None if it depends on more."""
+        if isinstance(test, ast.UnaryOp) and isinstance(test.op, ast.Not):
+            v = self._test(fn, test.operand, rule)
+            return None if v is None else not v
+        if isinstance(test, ast.BoolOp):
+            vals = [self._test(fn, v, rule) for v in test.values]
+            if isinstance(test.op, ast.And):
+                if any(v is False for v in vals):
+                    return False
+                return True if all(v is True for v in vals) else None
+            if any(v is True for v in vals):
+                return True
+            return False if all(v is False for v in vals) else None
+        if isinstance(test, ast.Compare) and len(test.ops) == 1 and self._is_kind(test.left):
             comp = test.comparators[0]
-            if isinstance(test.ops[0], ast.Eq):
+            op = test.ops[0]
+            if isinstance(op, (ast.Eq, ast.NotEq)):
                 c = self._const(fn, comp)
-                return [c] if c is not None else None
-            if isinstance(test.ops[0], ast.In) and isinstance(comp, (ast.Tuple, ast.List, ast.Set)):
+                if c is None:
+                    return None
+                return (c == rule) == isinstance(op, ast.Eq)
+            if isinstance(op, (ast.In, ast.NotIn)) and isinstance(comp, (ast.Tuple, ast.List, ast.Set)):
                 out = [self._const(fn, x) for x in comp.elts]
                 if all(o is not None for o in out):
-                    return out  # type: ignore[return-value]
+                    return (rule in out) == isinstance(op, ast.In)
+            if isinstance(op, (ast.Is, ast.IsNot)) and isinstance(comp, ast.Constant) and comp.value is None:
+                return isinstance(op, ast.IsNot)
         return None
 
     def _parse_tokenize(self) -> None:
+        """Abstractly execute the loop body of `tokenize` once per lexer rule."""
         fn = self.repo.require_func("Lexer.tokenize")
         loops = [n for n in fn.node.body if isinstance(n, ast.For)]
         if len(loops) != 1:
             raise AnalysisError("Lexer.tokenize: expected one loop over the rule matches")
         loop = loops[0]
-        chain = [s for s in loop.body if isinstance(s, ast.If)]
-        if len(chain) != 1:
-            raise AnalysisError("Lexer.tokenize: expected one if/elif dispatch on the rule kind")
-        all_rules = [r for r, _ in self.rules]
-        seen: Set[str] = set()
-        node: Optional[ast.stmt] = chain[0]
-        while isinstance(node, ast.If):
-            rules = self._cond_rules(fn, node.test)
-            if rules is None:
-                raise AnalysisError(f"Lexer.tokenize: unrecognised dispatch test `{ast.unparse(node.test)}`")
-            self._branch(fn, node.body, rules)
-            seen.update(rules)
-            if len(node.orelse) == 1 and isinstance(node.orelse[0], ast.If):
-                node = node.orelse[0]
-            else:
-                rest = [r for r in all_rules if r not in seen]
-                self._branch(fn, node.orelse, rest, default=True)
-                node = None
-
-    def _branch(self, fn, body: List[ast.stmt], rules: List[str], default: bool = False) -> None:  # type: ignore[no-untyped-def]
-        yields = [n for s in body for n in ast.walk(s) if isinstance(n, ast.Yield)]
-        if not yields:
-            if any(isinstance(n, ast.Raise) for s in body for n in ast.walk(s)):
-                self.illegal.update(rules)
-            else:
-                self.skipped.update(rules)
-            return
-        for y in yields:
-            call = y.value
-            if not (isinstance(call, ast.Call) and isinstance(call.func, ast.Name)):
-                raise AnalysisError("Lexer.tokenize: yield of something that is not a token constructor")
-            kind_e: Optional[ast.expr] = None
-            value_e: Optional[ast.expr] = None
-            if call.args:
-                kind_e = call.args[0]
-            for k in call.keywords:
-                if k.arg == "kind":
-                    kind_e = k.value
-                elif k.arg == "value":
-                    value_e = k.value
-            if kind_e is None or value_e is None:
-                raise AnalysisError("Lexer.tokenize: token constructor without kind/value")
-            or_empty = False
-            if isinstance(value_e, ast.BoolOp) and isinstance(value_e.op, ast.Or) and len(value_e.values) == 2:
-                if isinstance(value_e.values[1], ast.Constant) and value_e.values[1].value == "":
-                    or_empty = True
-                    value_e = value_e.values[0]
-            group: Optional[str] = None
-            if (
-                isinstance(value_e, ast.Call)
-                and isinstance(value_e.func, ast.Attribute)
-                and value_e.func.attr == "group"
-            ):
-                if value_e.args:
-                    g = value_e.args[0]
-                    if not (isinstance(g, ast.Constant) and isinstance(g.value, str)):
-                        raise AnalysisError("Lexer.tokenize: non-constant group name")
-                    group = g.value
-            else:
-                raise AnalysisError(f"Lexer.tokenize: token value `{ast.unparse(value_e)}` is not match.group(...)")
-            for r in rules:
-                if isinstance(kind_e, ast.Name) and kind_e.id == "kind":
-                    k = r
+        self._kind_names: Set[str] = set()
+        for n in ast.walk(loop):
+            if isinstance(n, ast.Assign) and len(n.targets) == 1 and isinstance(n.targets[0], ast.Name) and isinstance(
+                n.value, ast.Attribute) and n.value.attr == "lastgroup":
+                self._kind_names.add(n.targets[0].id)
+        for rule, _ in self.rules:
+            before = len(self.emits)
+            ends: Set[str] = set()
+            self._walk(fn, loop.body, rule, ends)
+            if len(self.emits) == before:
+                if "raise" in ends:
+                    self.illegal.add(rule)
                 else:
-                    kc = self._const(fn, kind_e)
-                    if kc is None:
-                        raise AnalysisError("Lexer.tokenize: non-constant token kind")
-                    k = kc
-                self.emits.append(Emit(k, r, group, or_empty))
+                    self.skipped.add(rule)
+
+    def _walk(self, fn, body: List[ast.stmt], rule: str, ends: Set[str]) -> bool:  # type: ignore[no-untyped-def]
+        """Walk `body` for `rule`; True if control can fall off its end."""
+        for i, s in enumerate(body):
+            if isinstance(s, ast.If):
+                v = self._test(fn, s.test, rule)
+                falls = False
+                if v is not False:
+                    falls |= self._walk(fn, s.body, rule, ends)
+                if v is not True:
+                    falls |= self._walk(fn, s.orelse, rule, ends)
+                if not falls:
+                    return False
+            elif isinstance(s, ast.Continue):
+                ends.add("continue")
+                return False
+            elif isinstance(s, ast.Raise):
+                ends.add("raise")
+                return False
+            elif isinstance(s, ast.Expr) and isinstance(s.value, ast.Yield):
+                self._emit(fn, s.value, rule)
+            elif isinstance(s, (ast.Assert, ast.Assign, ast.AnnAssign, ast.Pass)):
+                continue
+            else:
+                raise AnalysisError(f"Lexer.tokenize: unrecognised statement `{ast.unparse(s)[:60]}` in the dispatch loop")
+        return True
+
+    def _emit(self, fn, y: ast.Yield, rule: str) -> None:  # type: ignore[no-untyped-def]
+        call = y.value
+        if not (isinstance(call, ast.Call) and isinstance(call.func, ast.Name)):
+            raise AnalysisError("Lexer.tokenize: yield of something that is not a token constructor")
+        kind_e: Optional[ast.expr] = None
+        value_e: Optional[ast.expr] = None
+        if call.args:
+            kind_e = call.args[0]
+        for k in call.keywords:
+            if k.arg == "kind":
+                kind_e = k.value
+            elif k.arg == "value":
+                value_e = k.value
+        if kind_e is None or value_e is None:
+            raise AnalysisError("Lexer.tokenize: token constructor without kind/value")
+        or_empty = False
+        if isinstance(value_e, ast.BoolOp) and isinstance(value_e.op, ast.Or) and len(value_e.values) == 2:
+            if isinstance(value_e.values[1], ast.Constant) and value_e.values[1].value == "":
+                or_empty = True
+                value_e = value_e.values[0]
+        group: Optional[str] = None
+        if (
+            isinstance(value_e, ast.Call)
+            and isinstance(value_e.func, ast.Attribute)
+            and value_e.func.attr == "group"
+        ):
+            if value_e.args:
+                g = value_e.args[0]
+                if not (isinstance(g, ast.Constant) and isinstance(g.value, str)):
+                    raise AnalysisError("Lexer.tokenize: non-constant group name")
+                group = g.value
+        else:
+            raise AnalysisError(f"Lexer.tokenize: token value `{ast.unparse(value_e)}` is not match.group(...)")
+        if self._is_kind(kind_e):
+            k2 = rule
+        else:
+            kc = self._const(fn, kind_e)
+            if kc is None:
+                raise AnalysisError("Lexer.tokenize: non-constant token kind")
+            k2 = kc
+        e = Emit(k2, rule, group, or_empty)
+        if e not in self.emits:
+            self.emits.append(e)
 
     # --------------------------------------------------------------- query
     def rule_pattern(self, rule: str) -> str:
